@@ -165,6 +165,17 @@ def leaks(prog) -> set:
             for x in n[1]:
                 walk(x, depth, loop_base, in_sub)
             return
+        if t in ("multi", "maybe"):
+            # the arguments of a MultiValue / MaybeValue are operands of its opcode; the use of the outputs stands where the node stands
+            for i, a in enumerate(n[2]):
+                walk(a, depth + i, loop_base, in_sub)
+            walk(n[4] if t == "multi" else n[5], depth, loop_base, in_sub)
+            return
+        if t == "itxn":
+            for fields in n[1]:
+                for _f, e in fields:
+                    walk(e, depth, loop_base, in_sub)
+            return
         for x in n[1:]:
             if isinstance(x, tuple):
                 walk(x, depth, loop_base, in_sub)
